@@ -524,6 +524,7 @@ func (m *Memberlist) UpdateNode(timeout time.Duration) error {
 	m.nodeLock.RLock()
 	state := m.nodeMap[m.config.Name]
 	m.nodeLock.RUnlock()
+	verifYield("update", m)
 
 	// Format a new alive message
 	a := alive{
@@ -656,12 +657,14 @@ func (m *Memberlist) Leave(timeout time.Duration) error {
 
 	if !m.hasLeft() {
 		m.leave.Store(1)
+		verifYield("leave1", m)
 
 		m.nodeLock.Lock()
 		state, ok := m.nodeMap[m.config.Name]
 		incarnation := state.Incarnation
 		name := state.Name
 		m.nodeLock.Unlock()
+		verifYield("leave2", m)
 		if !ok {
 			m.logger.Printf("[WARN] memberlist: Leave but we're not in the node map.")
 			return nil
@@ -731,6 +734,7 @@ func (m *Memberlist) ProtocolVersion() uint8 {
 //
 // This method is safe to call multiple times.
 func (m *Memberlist) Shutdown() error {
+	verifYield("shutdown1", m)
 	m.shutdownLock.Lock()
 	defer m.shutdownLock.Unlock()
 
@@ -744,6 +748,7 @@ func (m *Memberlist) Shutdown() error {
 	if err := m.transport.Shutdown(); err != nil {
 		m.logger.Printf("[ERR] Failed to shutdown transport: %v", err)
 	}
+	verifYield("shutdown2", m)
 
 	// Now tear down everything else.
 	m.shutdown.Store(1)
